@@ -264,6 +264,7 @@ func (e *Engine) Load(name string) (*Template, error) {
 	var lastModified int64
 	var sourceLoader Loader
 	var loaderErrors []error
+	var loaderFailure error
 	var template *Template
 
 	for _, loader := range e.loaders {
@@ -271,6 +272,13 @@ func (e *Engine) Load(name string) (*Template, error) {
 		if err != nil {
 			// Collect loader errors for better diagnostics
 			loaderErrors = append(loaderErrors, fmt.Errorf("loader %T: %w", loader, err))
+
+			// A loader that fails for another reason than not having the
+			// template (I/O, backend) is remembered: if no other loader has
+			// the template either, that failure is the result, not "not found"
+			if loaderFailure == nil && !errors.Is(err, ErrTemplateNotFound) {
+				loaderFailure = fmt.Errorf("failed to load template '%s': loader %T: %w", name, loader, err)
+			}
 			continue
 		}
 
@@ -305,6 +313,12 @@ func (e *Engine) Load(name string) (*Template, error) {
 
 	// If we failed to load the template from any loader
 	if template == nil {
+		// A loader failure keeps its cause reachable with errors.Is/As
+		if loaderFailure != nil {
+			LogError(loaderFailure, fmt.Sprintf("Failed to load template: %s", name))
+			return nil, loaderFailure
+		}
+
 		// If we have collected errors from loaders, include them in the error message
 		if len(loaderErrors) > 0 {
 			errorDetails := strings.Builder{}
